@@ -1,10 +1,11 @@
 SPECIFICATION Spec
 CONSTANTS
-  Scen1 <- ScenR
+  Scen1 <- ScenRall
   Scen2 <- ScenR2
   ClearChoices = {TRUE}
   Installs = {TRUE}
   ResetsResult = TRUE
+  LateIgnored = TRUE
 CONSTRAINT ExportC
 INVARIANT ResultRight
 INVARIANT Guards
